@@ -60,4 +60,10 @@ CHECKS = {
         "text": "For sampled (thorough: all) pairs of dimension classes drawn from the library units and generated compound units, every operation named in the property is compiled as its own probe and must be rejected; the same operation text with same-dimension operands and permitted reps must be accepted; trait questions are asked inside static_asserts so both a wrong answer and a hard error are seen. Run under two (thorough: six) compiler/standard configurations.",
         "note": "The rejection half is a compile-time fact and is observed on the compiler's execution over the real headers, not inside an Au execution. Dimensions come from the library's reified leaves + the exact model.",
     },
+    "C11": {
+        "module": ("vf.props.c11", "C11"), "engine": "planeB+planeC",
+        "technique": "runtime trace monitoring: representable_in / get_value / classification reified per (magnitude, type) and judged by exact rational and 130-digit decimal arithmetic; compile-outcome probes for the must-not-compile half",
+        "text": "Structured and random magnitudes (integers straddling every type limit, primes up to 2^64-59, powers around FLT/DBL/LDBL max/min, roots, pi powers) are reified for 8 integer and 3 floating types: the exponent vector, is_integer/is_rational/numerator/denominator/integer_part, representable_in and the guarded get_value (constant-evaluated and at run time) are compared with an exact model; every not-representable (magnitude, type) becomes a get_value reject probe; mag<a>()*mag<b>() == mag<a*b>() type identity is checked on a slice.",
+        "note": "Trusted: vf/model.py + decimal/Fraction arithmetic with stated ulp tolerances; x87 80-bit long double.",
+    },
 }
